@@ -519,6 +519,9 @@ func prefixesAt(t *testing.T, kd *kind, sc scenario, depth int) [][]int {
 //   store, threads, pshard, npshards, pdepth — one scenario, only the schedule-tree prefixes j (at depth pdepth) with j % npshards == pshard
 //   deadline (unix seconds, optional)
 func execConc(t *testing.T, job vx.Job) (res vx.Result) {
+	if skipLate(job, &res) {
+		return
+	}
 	kd := kinds[job.Args["store"]]
 	if kd == nil {
 		res.HarnessErr = "unknown store " + job.Args["store"]
